@@ -110,7 +110,10 @@ impl BaseElement {
         let z = (s_hi << 32) - s_hi;
         let (res, over) = s_lo.overflowing_add(z);
 
-        BaseElement::from_mont(res.wrapping_add(0u32.wrapping_sub(over as u32) as u64))
+        let res = res.wrapping_add(0u32.wrapping_sub(over as u32) as u64);
+        // bring the result into the canonical [0, M) range
+        let (reduced, borrow) = res.overflowing_sub(M);
+        BaseElement::from_mont(reduced.wrapping_add(M & 0u64.wrapping_sub(borrow as u64)))
     }
 }
 
